@@ -333,6 +333,8 @@ func (r *RolloutReconciler) handleNormalRolling(c *RolloutContext) error {
 	}
 	// in case user modifies it with inappropriate value
 	util.CheckNextBatchIndexWithCorrect(c.Rollout)
+	// the release managers read NewStatus (a copy taken before the correction), so the corrected value must land there too
+	c.NewStatus.GetSubStatus().NextStepIndex = c.Rollout.Status.GetSubStatus().NextStepIndex
 
 	releaseManager, err := r.getReleaseManager(c.Rollout)
 	if err != nil {
